@@ -19,6 +19,10 @@ for m in sorted(glob.glob(os.path.join(VERIF, "seeded", "*", "meta.json"))):
     needs = d.get("needs", first)
     sig = (c.get("signatures") or ["-"])[0]
     mins = (c.get("minimised") or ["-"])[0].replace("minimised: ", "")
+    if d.get("obsolete"):
+        rows.append(f"| {d['seed_id']} | {d['property']} | {needs} | obsolete: the repair e0589d6 removed the exception "
+                    f"path it needs (see meta.json) | was caught | `-` | - |")
+        continue
     rows.append(f"| {d['seed_id']} | {d['property']} | {needs} | {'yes' if d.get('confirmed') else 'NO'} | "
                 f"{'caught' if c.get('caught') else 'MISSED'} | `{sig}` | {mins} |")
 print("| seed | property | what it needs to manifest | confirmed (demo + suite) | quick check | first signature | minimised |")
